@@ -26,7 +26,7 @@ ASSUMPTIONS = ["calls on destroyed handles are not generated: the API cannot tel
                "sqfvm_load_config has no call_data parameter: only user_data is checked for its diagnostics"]
 
 CLASSES = ["clean", "clean", "set", "get", "pp_error", "parse_error", "rt_error_early", "rt_error_last", "rt_error_behaviour", "rt_error_spawned",
-           "nonterminating", "sleepers", "cfg_get", "preprocess_only", "parse_only", "bad_type", "null_handle", "bogus_handle", "malformed", "status", "exit"]
+           "nonterminating", "asleep_past_limit", "asleep_past_limit", "sleepers", "cfg_get", "preprocess_only", "parse_only", "bad_type", "null_handle", "bogus_handle", "malformed", "status", "exit"]
 
 
 def gen_call(rng, k, state, inst):
@@ -81,6 +81,13 @@ def gen_call(rng, k, state, inst):
         c["expect"] = -6
         c["needs_limit"] = True
         c["never"] = [k + 2]
+    elif cls == "asleep_past_limit":
+        # the main script ends, a spawned one sleeps far beyond the budget: the run is cut while everybody is asleep
+        c["text"] = "t__ [%d]; [] spawn { sleep %d; t__ [%d]; }; t__ [%d];" % (k, rng.choice([5, 30, 3600]), k + 1, k + 2)
+        c["expect"] = -6
+        c["needs_limit"] = True
+        c["markers_set"] = [k, k + 2]
+        c["never"] = [k + 1]
     elif cls == "sleepers":
         c["text"] = "t__ [%d]; [] spawn { sleep %s; t__ [%d]; }; t__ [%d];" % (k, rng.choice(["0.001", "0.01"]), k + 1, k + 2)
         c["expect"] = 0
@@ -131,6 +138,18 @@ def gen_call(rng, k, state, inst):
 
 
 def generate(rng, tier, run):
+    if rng.random() < 0.003:
+        # type 'a' (assembly text) is exercised in short dedicated histories with a short watchdog: see KNOWN_FINDINGS.txt
+        inst = {"name": "i0", "kind": "full", "user": 7000, "limit_s": 0.2}
+        c = gen_call(rng, 100, None, "i0")
+        c.update({"cls": "assembly", "type": "a", "handle": "valid", "expect": None, "markers": None, "cookie": 9000, "advance_ms": 0,
+                  "text": rng.choice(["PUSH 1; PUSH 2; CALLBINARY +; ASSIGNTO _a; ENDSTATEMENT; GETVARIABLE _a; CALLUNARY str;",
+                                      "PUSH 1;", "ENDSTATEMENT;", "CALLNULAR time;", "PUSH \"x\"; CALLUNARY diag_log;", "MAKEARRAY 0;", "PUSH", ""])})
+        for k in ("markers_set", "never", "get", "set", "text_b64", "fn", "needs_limit", "cfg_get", "sleep"):
+            c.pop(k, None)
+        case = {"insts": [inst], "calls": [c], "clock": {"per_instr_ns": 1000, "per_poll_ns": 100, "idle_jump": True}, "watchdog_s": 8}
+        case["plan"] = plan_of(case)
+        return case
     ncalls = rng.randint(2, 12 if tier == "quick" else 25)
     ninst = rng.randint(1, 3)
     insts = []
@@ -180,7 +199,7 @@ def plan_of(case):
     for i in case["insts"]:
         steps.append({"do": "api_destroy", "inst": i["name"]})
     return {"prop": PROP, "steps": steps, "clock": case["clock"],
-            "limits": {"max_instr": 3000000, "max_events": 200000, "max_visits": 3000000, "watchdog_s": 90},
+            "limits": {"max_instr": 3000000, "max_events": 200000, "max_visits": 3000000, "watchdog_s": case.get("watchdog_s", 60)},
             "observe": {"visits": False, "slices": False}}
 
 
